@@ -99,6 +99,10 @@ class Emitter:
         t = self.u.types.get(rty)
         if t:
             return t
+        key = re.sub(r"\s+", "", rty)
+        for k, v in self.u.types.items():
+            if re.sub(r"\s+", "", k) == key:
+                return v
         if rty in ("usize",):
             return "Nat"
         if rty == "bool":
@@ -452,6 +456,13 @@ class Emitter:
         if name in ("Ok", "Err") and name not in self.u.functions:
             c = self.cexpr(args[0], env)
             return Code(f"({'Except.ok' if name == 'Ok' else 'Except.error'} {paren(c.val)})", hint, c.pre)
+        # a closure parameter applied to arguments
+        if len(f[1]) == 1 and f[1][0] in env.vars and (env.vars[f[1][0]][1] or "").startswith("impl Fn"):
+            ln, cty = env.vars[f[1][0]]
+            cs = self.cargs(args, env)
+            ret = norm_ty(cty.split("->", 1)[1]) if "->" in cty else "()"
+            app = ln + "".join(" " + paren(c.val) for c in cs) if cs else f"{ln} ()"
+            return Code(f"({app})", ret, [p for c in cs for p in c.pre])
         # functions of this unit (free functions, `Self::f`)
         short = f[1][-1]
         tgt = self.u.local_fn(short, f[1])
@@ -589,7 +600,7 @@ class Emitter:
             ps, conds, binds = [], [], {}
             for q in p[2]:
                 a, c, b = self.cpat(q, env, inner_ty)
-                ps.append(a)
+                ps.append(a if re.fullmatch(r"[\w'.]+", a) else f"({a})")
                 conds += c
                 binds.update(b)
             return f"{lc} " + " ".join(ps), conds, binds
@@ -777,7 +788,7 @@ class Emitter:
                 if all_ctors and cov >= all_ctors:
                     return out
                 j += 1
-            if not (all_ctors and cov >= all_ctors):
+            if not (all_ctors and cov >= all_ctors) and not getattr(self.u, "trust_exhaustive", False):
                 out += ["| _ =>", [self.u.panic]]
             return out
 
@@ -1006,7 +1017,7 @@ class Emitter:
         """(binders, arguments) every definition derived from `fn` carries: the integer-type parameter
         of generic functions and the unit's extra (ghost) parameters."""
         bs, as_ = [], []
-        if fn.generics and self.u.generic_binder:
+        if (fn.generics or getattr(self.u, "always_generic", False)) and self.u.generic_binder:
             bs.append(self.u.generic_binder)
             as_.append(self.u.generic_arg)
         x = getattr(self.u, "extra_binders", {}).get(fn.name)
@@ -1225,6 +1236,10 @@ class Emitter:
         pre = []
         for p in fn.params:
             if p[0] == "self":
+                svt = getattr(self.u, "self_value_type", None)
+                if svt:          # units of pure methods: `self` is an ordinary value
+                    ln = self.declare(env, "self", svt, False)
+                    binders.append(f"({ln} : {self.lean_type(svt)})")
                 continue
             pat, pty = p
             if self.u.is_state_type(pty):
